@@ -3,11 +3,13 @@
    F13 (fixed attribute order), F21 (numeric dates, empty strings) and F22 (JSON objects only).
    The pre-repair behaviours stay selectable ([parse_jwt_gen false], [convert_orig],
    [attrs_orig]) so that the refutations of the original code remain checkable.
-   encoding/json is a library ORACLE: [J : bytes -> jres] is what json.Unmarshal into a nil
-   map[string]any returned for those bytes; the harness records it per case.
+   encoding/json is a parameter here: [J : bytes -> jres] is what json.Unmarshal into a nil
+   map[string]any returns for those bytes.  The case runner instantiates it with the reference
+   reader of Model/JwtJson.v (falling back to the answer the harness recorded only where the reader
+   does not decide); the theorems hold for every J.
    Executable definitions only, no proofs. *)
 From WI Require Import Lib.Base Lib.Info Lib.Time Model.Base64.
-From WI Require gen.JwtParams.
+From WI Require gen.JwtParams Model.Dispatch Model.Uuid.
 Open Scope N_scope.
 
 (* ---- what encoding/json hands to the converters (they only look this far) ---- *)
@@ -198,6 +200,34 @@ Definition describe_jwt : jwt -> info := describe_in jwt_params.
 
 Definition jwt_data (J : bytes -> jres) (s : bytes) : result info :=
   let* j := parse_jwt J s in Ok (describe_jwt j).
+
+(* ---- file.Inspect with the modelled sniffers (info.go:Inspect over the format table) ---- *)
+(* the first byte of a text that encoding/json can decode into a map: '{' or JSON white space
+   (RFC 8259 section 2: space, horizontal tab, line feed, carriage return) *)
+Definition json_start (c : N) : bool :=
+  (c =? 123) || (c =? 32) || (c =? 9) || (c =? 10) || (c =? 13).
+
+(* SmellsLike: IsJWT and IsUUID are the modelled recognisers; the sniffers of the other rows
+   (IsASN1, IsBase64ASN1, IsMixedPEM) and the other parsers stay parameters *)
+Definition jwt_sniff_with (uuid : bytes -> bool) (J : bytes -> jres) (other : bytes -> bytes -> bool) (n d : bytes) : bool :=
+  if bytes_eqb n (bs "IsJWT") then is_jwt J d
+  else if bytes_eqb n (bs "IsUUID") then uuid d
+  else other n d.
+Definition jwt_sniff := jwt_sniff_with Model.Uuid.is_uuid.
+Definition jwt_parse (J : bytes -> jres) (other : bytes -> bytes -> result info) (n d : bytes) : result info :=
+  if bytes_eqb n (bs "JWTData") then jwt_data J d else other n d.
+Definition inspect_jwt (J : bytes -> jres) (other_sniff : bytes -> bytes -> bool)
+    (other_parse : bytes -> bytes -> result info) (name data : bytes) : result info :=
+  Model.Dispatch.inspect (jwt_sniff J other_sniff) (jwt_parse J other_parse) name data.
+
+(* for the case runner: the same recogniser with a short cut that is proved to change nothing
+   (Proofs/JwtDispatch.v: a text with a '.' is no UUID); Model/Uuid.v reverses the text twice with
+   List.rev, which is quadratic *)
+Definition is_uuid_quick (d : bytes) : bool :=
+  if existsb (N.eqb dot) d then false else Model.Uuid.is_uuid d.
+Definition inspect_jwt_quick (J : bytes -> jres) (other_sniff : bytes -> bytes -> bool)
+    (other_parse : bytes -> bytes -> result info) (name data : bytes) : result info :=
+  Model.Dispatch.inspect (jwt_sniff_with is_uuid_quick J other_sniff) (jwt_parse J other_parse) name data.
 
 (* ---- the code before the repairs (for the refutations) ---- *)
 (* str / sigAlg / unixTime returned "" for "not shown"; unixTime accepted strings only *)
